@@ -201,6 +201,8 @@ int32 matrixSslDecodeTls13(ssl_t *ssl,
     psSize_t parsedBytes = 0;
     psBuf_t tmp;
     psBool_t useOutbufForResponse = PS_FALSE;
+    unsigned char *outNew;
+    uint32 outNeed;
 
     if (ssl->flags & SSL_FLAGS_NEED_ENCODE)
     {
@@ -595,6 +597,22 @@ encodeResponse:
        and will not be parsed. */
     if ((p != NULL && p != *in + *len) && ssl->err == SSL_ALERT_NONE)
     {
+        /* Behind what is already waiting in outbuf the response gets the
+           room it would have had in inbuf, or what the encoder asked for
+           (see SSL_FULL below).  The caller cannot do this: it answers
+           SSL_FULL by dropping the rest of the input and growing inbuf. */
+        outNeed = ssl->outlen + PS_MAX(size, *requiredLen);
+        if (outNeed > (uint32) ssl->outsize)
+        {
+            if (outNeed > SSL_MAX_BUF_SIZE || (outNew = psRealloc(ssl->outbuf,
+                        outNeed, ssl->bufferPool)) == NULL)
+            {
+                *error = PS_MEM_FAIL;
+                return MATRIXSSL_ERROR;
+            }
+            ssl->outbuf = outNew;
+            ssl->outsize = outNeed;
+        }
         tmp.buf = tmp.start = tmp.end = ssl->outbuf + ssl->outlen;
         tmp.size = ssl->outsize - ssl->outlen;
         useOutbufForResponse = PS_TRUE;
@@ -621,6 +639,13 @@ encodeResponse:
         /* Handshake response */
         *alertDescription = SSL_ALERT_NONE;
         rc = sslEncodeResponse(ssl, &tmp, requiredLen);
+    }
+    if (rc == SSL_FULL && useOutbufForResponse &&
+        ssl->outlen + *requiredLen > (uint32) ssl->outsize)
+    {
+        /* Encode again (as after the caller has grown inbuf), into an
+           outbuf of the size the encoder now asks for */
+        goto encodeResponse;
     }
     if (rc == SSL_FULL)
     {
